@@ -317,6 +317,15 @@ I5_SCRIPTS = {
     "float-assigned-int-in-for-that-does-not-run": "duty = 1.5\nfor i in range(0):\n    duty = 3\nout = duty\nmon.write(out)\n",
     "max-min-three-operands-float-last": "a = 1\nb = 2\nx = 2.45\nm = max(a, b, x)\nn = min(a + 3, b + 4, x)\nmon.write(m)\nmon.write(n)\ndef top(p, q, r):\n    return max(p, q, r)\nt = top(1, 2, 12.5)\nmon.write(t)\n",
     "int-then-float-reassign": "x = 1\nx = 2.5\nmon.write(x)\n",
+    "integer-literal-numerator-division": "n = 4\ncount = 8\ninv = 1 / n\npct = 100 / count\nq = 1 / 4\nmon.write(inv)\nmon.write(pct)\nmon.write(q)\ndef frac(k):\n    return 1 / k\nmon.write(frac(8))\nmon.write(3 / n + 1)\nmon.write(7 / (n + 1))\n",
+    "division-in-arguments-and-conditions": "n = 8\ndef show(v):\n    mon.write(v)\nshow(1 / n)\nshow(n / 16)\nif 1 / n > 0.1:\n    mon.write(1)\nsleep(25 / n)\n",
+    "parameter-named-like-an-int-global": "gain = 3\ndef amplify(gain):\n    return gain * 2\nmon.write(amplify(1.5))\nmon.write(gain)\n",
+    "parameter-named-like-the-callers-parameter": "def area(n):\n    return n * n\ndef ring(n):\n    return area(n / 2)\nmon.write(ring(3))\n",
+    "recursive-call-with-a-retyped-argument": "def halve(x):\n    if x < 1:\n        return x\n    return halve(x / 2)\nmon.write(halve(5))\n",
+    "parameter-named-like-a-string-global": "label = 'abc'\ndef twice(label):\n    return label * 2\nmon.write(twice(2.5))\nmon.write(label)\n",
+    "dc-motor-queries-stored-in-variables": "from Reduino.Actuators import DCMotor\nm = DCMotor(2, 3, 5)\nm.set_speed(0.5)\nv = m.get_speed()\nw = m.get_applied_speed()\nhalf = v / 2\nmon.write(v)\nmon.write(w)\nmon.write(half)\n",
+    "servo-queries-stored-in-variables": "from Reduino.Actuators import Servo\ns = Servo(9)\ns.write(45.5)\na = s.read()\nu = s.read_us()\nd = a + 0.25\nmon.write(a)\nmon.write(u)\nmon.write(d)\n",
+    "queries-returned-from-helpers": "from Reduino.Actuators import DCMotor\nm = DCMotor(2, 3, 5)\ndef speed():\n    return m.get_speed()\ndef twice():\n    s = m.get_applied_speed()\n    return s * 2\nm.set_speed(0.25)\nmon.write(speed())\nmon.write(twice())\n",
     "comprehension-target-reuses-a-float-name": "k = 0.5\nxs = [k * 2 for k in range(4)]\ny = k + 1\nz = y * 3\nmon.write(xs[3])\nmon.write(k)\nmon.write(y)\nmon.write(z)\n",
     "comprehension-target-reuses-a-float-parameter": "def spread(k):\n    steps = [k * 10 for k in range(3)]\n    return k + steps[2]\nw = spread(0.25)\nmon.write(w)\n",
     "comprehension-target-reuses-a-string-name": "k = 'ab'\nxs = [k + 1 for k in range(3)]\nt = k + 'c'\nmon.write(xs[2])\nmon.write(t)\n",
